@@ -4,6 +4,7 @@ mod core;
 mod gen;
 mod hashseed;
 mod c13;
+mod c15;
 mod ide_sim;
 mod lsp;
 mod lspcheck;
@@ -219,6 +220,7 @@ struct LspEval {
 fn lsp_gen(prop: &str, seed: u64, run: u64, thorough: bool) -> lsp::Session {
     match prop {
         "C13" => c13::gen_session(seed, run, thorough),
+        "C15" => c15::gen_session(seed, run, thorough),
         _ => panic!("unknown lsp property {prop}"),
     }
 }
@@ -232,6 +234,22 @@ fn lsp_eval(s: &lsp::Session, h: &lsp::History) -> LspEval {
             counters.insert("probes_checked".to_string(), st.probes_checked);
             counters.insert("edits_applied".to_string(), st.edits_applied);
             counters.insert("syntax_tree_crosschecks".to_string(), st.syntax_tree_crosschecks);
+            LspEval { violation, nontrivial: st.nontrivial, kind_key: st.kind_key, counters }
+        }
+        "C15" => {
+            let mut st = c15::Stats::default();
+            let violation = c15::check(s, h, &mut st);
+            for (k, v) in [
+                ("probes_checked", st.probes_checked),
+                ("invalid_or_unusual_messages", st.invalid_ops),
+                ("disk_fault_ops", st.disk_faults),
+                ("outcome_forgotten", st.forgotten_outcomes),
+                ("outcome_applied", st.applied_outcomes),
+                ("responses_error", st.error_responses),
+                ("responses_result", st.result_responses),
+            ] {
+                counters.insert(k.to_string(), v);
+            }
             LspEval { violation, nontrivial: st.nontrivial, kind_key: st.kind_key, counters }
         }
         p => panic!("unknown lsp property {p}"),
